@@ -683,6 +683,26 @@ reg("Aggregate", Aggregate, [{"a": 1, "i1": 2, "p_x": 3, "other": [1], "zed": 4}
     [lambda: Aggregate(1, Inner(2, "s"), {"p_x": 3}, {"other": [1]}, 4)], "Aggregate")
 
 
+ClientKey = Annotated[str, schema(pattern=r"^client_")]
+ServerKey = NewType("ServerKey", str)
+schema(pattern=r"^server_")(ServerKey)
+
+
+@dataclass
+class Config:
+    active: bool = True
+    client: Mapping[ClientKey, bool] = field(default_factory=dict, metadata=properties(...))
+    server: Dict[ServerKey, int] = field(default_factory=dict, metadata=properties(...))
+    rest: Dict[str, Any] = field(default_factory=dict, metadata=properties)
+    sub: Optional["Config"] = None
+
+
+reg("Config", Config, [{"active": False, "client_x": True, "server_n": 1, "other": [1], "sub": {"client_y": False}},
+                       {"client_x": "no"}, {"server_n": "x"}],
+    [lambda: Config(False, {"client_x": True}, {"server_n": 1}, {"other": [1]}, Config())], "Config")
+reg("ListConfig", List[Config], [[{"client_a": True}], [{"server_b": None}]], [lambda: [Config(True, {"client_a": True})]], "Config")
+
+
 @alias(lambda s: s.upper())
 @dataclass
 class Upper:
